@@ -32,8 +32,8 @@ Definition w_frame (sb ib : list N) : list N :=
 
 Definition eager (kd : ikind) (fd : fkind) (hs : Z) (bs : list N) :=
   dec_record_typed w_strings w_contigs (w_ik kd) (w_fk fd) hs bs.
-Definition lazy (v44 : bool) (kd : ikind) (fd : fkind) (bs : list N) :=
-  lazy_read v44 w_strings w_contigs (w_ik kd) (w_fk fd) bs.
+Definition lazy (v44 : bool) (kd : ikind) (fd : fkind) (hs : Z) (bs : list N) :=
+  lazy_read_hdr v44 w_strings w_contigs (w_ik kd) (w_fk fd) hs bs.
 Definition agree (kd : ikind) (fd : fkind) (hs : Z) (bs : list N) :=
   lazy_agree w_strings w_contigs (w_ik kd) (w_fk fd) hs bs.
 
@@ -45,20 +45,20 @@ Definition is_err {A} (r : rres A) : bool := match r with RErr => true | _ => fa
 
 (* both paths accept, inside the class, and the two RecordBufs are equal up to trec_norm *)
 Definition agrees (v44 : bool) (kd : ikind) (fd : fkind) (hs : Z) (bs : list N) : Prop :=
-  is_ok (eager kd fd hs bs) = true /\ agree kd fd hs bs = true /\ same v44 (lazy v44 kd fd bs) (eager kd fd hs bs).
+  is_ok (eager kd fd hs bs) = true /\ agree kd fd hs bs = true /\ same v44 (lazy v44 kd fd hs bs) (eager kd fd hs bs).
 
 Ltac agrees_by_computation := split; [vm_compute; reflexivity|split; vm_compute; reflexivity].
 
 (* ---- was lazy-empty-allele: REF is the typed string of length 0 (0x07): REF = "." in both *)
 Definition w_empty_ref : list N := w_frame (w_fixed 0 1 0 0 ++ [7; 7; 0]%N) [].
 Theorem lazy_empty_ref_agrees : agrees true KFlag (FInt true) 0 w_empty_ref /\
-  match lazy true KFlag (FInt true) w_empty_ref with ROk t => h_ref (t_head t) = [dot] | _ => False end.
+  match lazy true KFlag (FInt true) 0 w_empty_ref with ROk t => h_ref (t_head t) = [dot] | _ => False end.
 Proof. split; [agrees_by_computation|vm_compute; reflexivity]. Qed.
 
 (* ... an ALT of length 0: ALT = "." in both *)
 Definition w_empty_alt : list N := w_frame (w_fixed 0 2 0 0 ++ [7; 23; 65; 7; 0]%N) [].
 Theorem lazy_empty_alt_agrees : agrees true KFlag (FInt true) 0 w_empty_alt /\
-  match lazy true KFlag (FInt true) w_empty_alt with ROk t => h_alts (t_head t) = [[dot]] | _ => False end.
+  match lazy true KFlag (FInt true) 0 w_empty_alt with ROk t => h_alts (t_head t) = [[dot]] | _ => False end.
 Proof. split; [agrees_by_computation|vm_compute; reflexivity]. Qed.
 
 (* ---- was lazy-samples-block-trailing-bytes: n_fmt = 0 and one byte in the samples block: neither
@@ -71,7 +71,7 @@ Proof. agrees_by_computation. Qed.
 Definition w_trailing_series : list N :=
   w_frame (w_fixed 0 1 1 1 ++ [7; 23; 65; 0]%N) [17; 3; 17; 5; 17; 3; 17; 6]%N.
 Theorem lazy_trailing_series_agrees : agrees true KFlag (FInt true) 1 w_trailing_series /\
-  match lazy true KFlag (FInt true) w_trailing_series with
+  match lazy true KFlag (FInt true) 1 w_trailing_series with
   | ROk t => t_keys t = [nY] /\ t_rows t = [[CI (Some 5)]]
   | _ => False
   end.
@@ -81,7 +81,7 @@ Proof. split; [agrees_by_computation|vm_compute; split; reflexivity]. Qed.
    when every genotype is empty): the missing value in both *)
 Definition w_gt_zero : list N := w_frame (w_fixed 0 1 1 1 ++ [7; 23; 65; 0]%N) [17; 2; 1]%N.
 Theorem lazy_gt_zero_length_agrees : agrees true KFlag (FInt true) 1 w_gt_zero /\
-  match lazy true KFlag (FInt true) w_gt_zero with ROk t => t_rows t = [[CG None]] | _ => False end.
+  match lazy true KFlag (FInt true) 1 w_gt_zero with ROk t => t_rows t = [[CG None]] | _ => False end.
 Proof. split; [agrees_by_computation|vm_compute; reflexivity]. Qed.
 
 (* ... two samples, GT without values followed by Y = 5, 6 (the input of a1ba5e6, on which the eager
@@ -98,7 +98,7 @@ Proof. split; [agrees_by_computation|vm_compute; reflexivity]. Qed.
 (* ---- was lazy-array-percent-escape: INFO X (Number=., Type=String) = "%41,b": ["%41", "b"] in both *)
 Definition w_percent : list N := w_frame (w_fixed 1 1 0 0 ++ [7; 23; 65; 0; 17; 1; 87; 37; 52; 49; 44; 98]%N) [].
 Theorem lazy_percent_escape_agrees : agrees true (KStr true) (FInt true) 0 w_percent /\
-  match lazy true (KStr true) (FInt true) w_percent with
+  match lazy true (KStr true) (FInt true) 0 w_percent with
   | ROk t => t_info t = [(nX, IS (SStrs [Some [37; 52; 49]; Some [98]]))]%N
   | _ => False
   end.
@@ -107,7 +107,7 @@ Proof. split; [agrees_by_computation|vm_compute; reflexivity]. Qed.
 (* ---- was lazy-char-array-piece-not-one-char: INFO X (Number=., Type=Character) = "ab": [a, b] in both *)
 Definition w_chars : list N := w_frame (w_fixed 1 1 0 0 ++ [7; 23; 65; 0; 17; 1; 39; 97; 98]%N) [].
 Theorem lazy_char_piece_agrees : agrees true (KChar true) (FInt true) 0 w_chars /\
-  match lazy true (KChar true) (FInt true) w_chars with
+  match lazy true (KChar true) (FInt true) 0 w_chars with
   | ROk t => t_info t = [(nX, IS (SChars [Some 97; Some 98]))]%N
   | _ => False
   end.
@@ -117,14 +117,14 @@ Proof. split; [agrees_by_computation|vm_compute; reflexivity]. Qed.
    [""] in both *)
 Definition w_empty_cell : list N := w_frame (w_fixed 0 1 1 1 ++ [7; 23; 65; 0]%N) [17; 3; 23; 0]%N.
 Theorem lazy_string_array_empty_agrees : agrees true KFlag (FStr false) 1 w_empty_cell /\
-  match lazy true KFlag (FStr false) w_empty_cell with ROk t => t_rows t = [[CSV (Some [Some []])]] | _ => False end.
+  match lazy true KFlag (FStr false) 1 w_empty_cell with ROk t => t_rows t = [[CSV (Some [Some []])]] | _ => False end.
 Proof. split; [agrees_by_computation|vm_compute; reflexivity]. Qed.
 
 (* ... and the per-sample text "." of a String array is the missing value in both (it was the array [.]
    on the lazy side) *)
 Definition w_dot_cell : list N := w_frame (w_fixed 0 1 1 1 ++ [7; 23; 65; 0]%N) [17; 3; 23; 46]%N.
 Theorem lazy_string_array_dot_agrees : agrees true KFlag (FStr false) 1 w_dot_cell /\
-  lazy true KFlag (FStr false) w_dot_cell = eager KFlag (FStr false) 1 w_dot_cell.
+  lazy true KFlag (FStr false) 1 w_dot_cell = eager KFlag (FStr false) 1 w_dot_cell.
 Proof. split; [agrees_by_computation|vm_compute; reflexivity]. Qed.
 
 (* ---- was lazy-info-character-multibyte: INFO X (Number=1, Type=Character) = U+00E9 (c3 a9).  The lazy
@@ -133,7 +133,7 @@ Proof. split; [agrees_by_computation|vm_compute; reflexivity]. Qed.
    model's documented assumption, and the reason for [lazy_agree] *)
 Definition w_multibyte : list N := w_frame (w_fixed 1 1 0 0 ++ [7; 23; 65; 0; 17; 1; 39; 195; 169]%N) [].
 Theorem lazy_info_character_multibyte_read :
-  match lazy true (KChar false) (FInt true) w_multibyte with
+  match lazy true (KChar false) (FInt true) 0 w_multibyte with
   | ROk t => t_info t = [(nX, IS (SChar 233))]%N
   | _ => False
   end /\ is_err (eager (KChar false) (FInt true) 0 w_multibyte) = true.
@@ -146,27 +146,35 @@ Definition w_nonascii_chars : list N := w_frame (w_fixed 1 1 0 0 ++ [7; 23; 65; 
 Theorem lazy_agree_excludes_nonascii_characters :
   agree (KChar true) (FInt true) 0 w_nonascii_chars = false /\
   is_ok (eager (KChar true) (FInt true) 0 w_nonascii_chars) = true /\
-  match lazy true (KChar true) (FInt true) w_nonascii_chars with
+  match lazy true (KChar true) (FInt true) 0 w_nonascii_chars with
   | ROk t => t_info t = [(nX, IS (SChars [Some 233]))]%N
   | _ => False
   end /\
-  ~ same true (lazy true (KChar true) (FInt true) w_nonascii_chars) (eager (KChar true) (FInt true) 0 w_nonascii_chars).
+  ~ same true (lazy true (KChar true) (FInt true) 0 w_nonascii_chars) (eager (KChar true) (FInt true) 0 w_nonascii_chars).
 Proof.
   split; [vm_compute; reflexivity|]. split; [vm_compute; reflexivity|]. split; [vm_compute; reflexivity|].
   vm_compute. discriminate.
 Qed.
 
 (* ---- the other direction: records the lazy path accepts and the eager reader rejects *)
-(* n_sample = 2 under a header without samples (the lazy path never looks at the header's sample names) *)
+(* n_sample = 2 under a header without samples was such a record until 30014e8 (the lazy path never looked
+   at the header's sample names and built two empty rows).  Now BOTH readers reject it; under a header
+   that names two samples both accept it; and the conversion without the check still accepts it *)
 Definition w_more_samples : list N := w_frame (w_fixed 0 1 2 0 ++ [7; 23; 65; 0]%N) [].
-Theorem lazy_accepts_sample_count_eager_rejects :
-  is_err (eager KFlag (FInt true) 0 w_more_samples) = true /\ is_ok (lazy true KFlag (FInt true) w_more_samples) = true.
-Proof. split; vm_compute; reflexivity. Qed.
+Theorem lazy_sample_count_above_header_both_reject :
+  is_err (eager KFlag (FInt true) 0 w_more_samples) = true /\ is_err (lazy true KFlag (FInt true) 0 w_more_samples) = true /\
+  is_err (lazy true KFlag (FInt true) 1 w_more_samples) = true /\
+  agrees true KFlag (FInt true) 2 w_more_samples /\
+  is_ok (lazy_read true w_strings w_contigs (w_ik KFlag) (w_fk (FInt true)) w_more_samples) = true.
+Proof.
+  split; [vm_compute; reflexivity|]. split; [vm_compute; reflexivity|]. split; [vm_compute; reflexivity|].
+  split; [agrees_by_computation|vm_compute; reflexivity].
+Qed.
 
 (* FILTER = a zero-length Int8 vector (0x01): eager InvalidIndexValue, lazy: no filter *)
 Definition w_filter_len0 : list N := w_frame (w_fixed 0 1 0 0 ++ [7; 23; 65; 1]%N) [].
 Theorem lazy_accepts_empty_filter_vector_eager_rejects :
-  is_err (eager KFlag (FInt true) 0 w_filter_len0) = true /\ is_ok (lazy true KFlag (FInt true) w_filter_len0) = true.
+  is_err (eager KFlag (FInt true) 0 w_filter_len0) = true /\ is_ok (lazy true KFlag (FInt true) 0 w_filter_len0) = true.
 Proof. split; vm_compute; reflexivity. Qed.
 
 (* rlen < 0: read_site rejects it, the lazy path never looks at the span *)
@@ -174,7 +182,7 @@ Definition w_neg_rlen : list N :=
   w_frame (enc_int W32 0 ++ enc_int W32 0 ++ enc_int W32 (-1) ++ enc_f32 f_missing
            ++ le_bytes 2 0 ++ le_bytes 2 1 ++ le_bytes 3 0 ++ [0%N] ++ [7; 23; 65; 0]%N) [].
 Theorem lazy_accepts_negative_rlen_eager_rejects :
-  is_err (eager KFlag (FInt true) 0 w_neg_rlen) = true /\ is_ok (lazy true KFlag (FInt true) w_neg_rlen) = true.
+  is_err (eager KFlag (FInt true) 0 w_neg_rlen) = true /\ is_ok (lazy true KFlag (FInt true) 0 w_neg_rlen) = true.
 Proof. split; vm_compute; reflexivity. Qed.
 
 (* the same INFO key twice: read_info rejects the duplicate, the lazy path collects into an IndexMap
@@ -182,7 +190,7 @@ Proof. split; vm_compute; reflexivity. Qed.
 Definition w_dup_info : list N := w_frame (w_fixed 2 1 0 0 ++ [7; 23; 65; 0; 17; 1; 0; 17; 1; 0]%N) [].
 Theorem lazy_accepts_duplicate_info_key_eager_rejects :
   is_err (eager KFlag (FInt true) 0 w_dup_info) = true /\
-  match lazy true KFlag (FInt true) w_dup_info with ROk t => t_info t = [(nX, IFlagV)] | _ => False end.
+  match lazy true KFlag (FInt true) 0 w_dup_info with ROk t => t_info t = [(nX, IFlagV)] | _ => False end.
 Proof. split; vm_compute; reflexivity. Qed.
 
 (* a GT cell whose first byte is the missing / a reserved Int8 (0x80): parse_genotype_values rejects it
@@ -190,7 +198,7 @@ Proof. split; vm_compute; reflexivity. Qed.
 Definition w_gt_missing_byte : list N := w_frame (w_fixed 0 1 1 1 ++ [7; 23; 65; 0]%N) [17; 2; 17; 128]%N.
 Theorem lazy_accepts_gt_sentinel_eager_rejects :
   is_err (eager KFlag (FInt true) 1 w_gt_missing_byte) = true /\
-  match lazy true KFlag (FInt true) w_gt_missing_byte with ROk t => t_rows t = [[CG (Some [])]] | _ => False end.
+  match lazy true KFlag (FInt true) 1 w_gt_missing_byte with ROk t => t_rows t = [[CG (Some [])]] | _ => False end.
 Proof. split; vm_compute; reflexivity. Qed.
 
 (* n_sample = 0 and a series whose key has no FORMAT definition (X is an INFO id): read_samples looks the
@@ -198,18 +206,18 @@ Proof. split; vm_compute; reflexivity. Qed.
 Definition w_no_samples_undefined_key : list N := w_frame (w_fixed 0 1 0 1 ++ [7; 23; 65; 0]%N) [17; 1; 17]%N.
 Theorem lazy_accepts_undefined_key_without_samples_eager_rejects :
   is_err (eager KFlag (FInt true) 0 w_no_samples_undefined_key) = true /\
-  match lazy true KFlag (FInt true) w_no_samples_undefined_key with ROk t => t_keys t = [nX] /\ t_rows t = [] | _ => False end.
+  match lazy true KFlag (FInt true) 0 w_no_samples_undefined_key with ROk t => t_keys t = [nX] /\ t_rows t = [] | _ => False end.
 Proof. split; [vm_compute; reflexivity|vm_compute; split; reflexivity]. Qed.
 
 (* every one of these records lies in the class [lazy_only] of LazyConverse (each in a different part of
    it), and so does the multi-byte INFO Character, which the eager MODEL rejects *)
-Definition only (kd : ikind) (fd : fkind) (hs : Z) (bs : list N) : bool :=
-  lazy_only w_strings (w_ik kd) (w_fk fd) hs bs.
+Definition only (kd : ikind) (fd : fkind) (bs : list N) : bool :=
+  lazy_only w_strings (w_ik kd) (w_fk fd) bs.
 Theorem lazy_only_witnesses :
-  only KFlag (FInt true) 0 w_more_samples = true /\ only KFlag (FInt true) 0 w_filter_len0 = true /\
-  only KFlag (FInt true) 0 w_neg_rlen = true /\ only KFlag (FInt true) 0 w_dup_info = true /\
-  only KFlag (FInt true) 1 w_gt_missing_byte = true /\ only KFlag (FInt true) 0 w_no_samples_undefined_key = true /\
-  only (KChar false) (FInt true) 0 w_multibyte = true.
+  only KFlag (FInt true) w_more_samples = false /\ only KFlag (FInt true) w_filter_len0 = true /\
+  only KFlag (FInt true) w_neg_rlen = true /\ only KFlag (FInt true) w_dup_info = true /\
+  only KFlag (FInt true) w_gt_missing_byte = true /\ only KFlag (FInt true) w_no_samples_undefined_key = true /\
+  only (KChar false) (FInt true) w_multibyte = true.
 Proof. repeat split; vm_compute; reflexivity. Qed.
 
 (* ---- non-vacuity of the agreement theorem: a record with an INFO field, GT and a FORMAT series, two
@@ -219,8 +227,8 @@ Definition w_good : list N :=
           [17; 2; 33; 2; 5; 4; 4; 17; 3; 55; 120; 44; 46; 46; 0; 0]%N.
 Theorem lazy_agree_nonvacuous :
   agree (KStr true) (FStr false) 2 w_good = true /\ is_ok (eager (KStr true) (FStr false) 2 w_good) = true /\
-  same false (lazy false (KStr true) (FStr false) w_good) (eager (KStr true) (FStr false) 2 w_good) /\
-  lazy false (KStr true) (FStr false) w_good <> eager (KStr true) (FStr false) 2 w_good.
+  same false (lazy false (KStr true) (FStr false) 2 w_good) (eager (KStr true) (FStr false) 2 w_good) /\
+  lazy false (KStr true) (FStr false) 2 w_good <> eager (KStr true) (FStr false) 2 w_good.
 Proof.
   split; [vm_compute; reflexivity|]. split; [vm_compute; reflexivity|]. split; [vm_compute; reflexivity|].
   vm_compute. discriminate.
@@ -228,6 +236,6 @@ Qed.
 
 (* ... and the premises of the converse are satisfiable: the same record is outside [lazy_only] *)
 Theorem lazy_converse_nonvacuous :
-  only (KStr true) (FStr false) 2 w_good = false /\ agree (KStr true) (FStr false) 2 w_good = true /\
-  is_ok (lazy false (KStr true) (FStr false) w_good) = true.
+  only (KStr true) (FStr false) w_good = false /\ agree (KStr true) (FStr false) 2 w_good = true /\
+  is_ok (lazy false (KStr true) (FStr false) 2 w_good) = true.
 Proof. repeat split; vm_compute; reflexivity. Qed.
